@@ -54,7 +54,9 @@ class Datagroup:
         if self.keys() != other.keys():
             return False
         for key, value in self.items():
-            if all(value != other[key]):
+            diff = value != other[key]
+            comps = diff._xyz.values() if hasattr(diff, "_xyz") else [diff]
+            if any(np.any(c.values) for c in comps):
                 return False
         return True
 
